@@ -315,68 +315,52 @@ class Parser:
 
 
 # ----------------------------------------------------------------------------- analysis helpers
-def uses(e):
+def subexprs(e):
+    """(array names used, sub-expressions) of a node"""
     k = e[0]
-    if k == "num":
-        return set()
-    if k == "var":
-        return set() if e[1] in ("INFINITY", "true", "false") else {e[1]}
-    if k == "field":
-        return set()
+    if k in ("num", "var", "field"):
+        return [], []
     if k == "idx":
-        return {e[1]} | uses(e[2])
+        return [e[1]], [e[2]]
+    if k == "slice":
+        return [e[1]], [e[2], e[3]]
     if k == "bin":
-        return uses(e[2]) | uses(e[3])
-    if k == "un":
-        return uses(e[2])
+        return [], [e[2], e[3]]
+    if k in ("un", "isnotnone"):
+        return [], [e[-1]]
     if k == "call":
-        s = set()
-        for a in e[2]:
-            s |= uses(a)
-        return s
-    raise TranslateError("uses: %r" % (e,))
+        return [], list(e[2])
+    raise TranslateError("expression node %r" % (e,))
+
+
+def uses(e):
+    if e[0] == "var":
+        return set() if e[1] in ("INFINITY", "true", "false") else {e[1]}
+    arrs, subs = subexprs(e)
+    s = set(arrs)
+    for x in subs:
+        s |= uses(x)
+    return s
 
 
 def has_access(e):
-    k = e[0]
-    if k == "idx":
+    if e[0] in ("idx", "slice"):
         return True
-    if k == "bin":
-        return has_access(e[2]) or has_access(e[3])
-    if k == "un":
-        return has_access(e[2])
-    if k == "call":
-        return any(has_access(a) for a in e[2])
-    return False
+    return any(has_access(x) for x in subexprs(e)[1])
 
 
 def fields(e, acc):
-    k = e[0]
-    if k == "field":
+    if e[0] == "field":
         acc.add((e[1], e[2]))
-    elif k == "idx":
-        fields(e[2], acc)
-    elif k == "bin":
-        fields(e[2], acc); fields(e[3], acc)
-    elif k == "un":
-        fields(e[2], acc)
-    elif k == "call":
-        for a in e[2]:
-            fields(a, acc)
+    for x in subexprs(e)[1]:
+        fields(x, acc)
 
 
 def calls(e, acc):
-    k = e[0]
-    if k == "call":
+    if e[0] == "call":
         acc.append(e)
-        for a in e[2]:
-            calls(a, acc)
-    elif k == "idx":
-        calls(e[2], acc)
-    elif k == "bin":
-        calls(e[2], acc); calls(e[3], acc)
-    elif k == "un":
-        calls(e[2], acc)
+    for x in subexprs(e)[1]:
+        calls(x, acc)
 
 
 def stmt_exprs(s):
@@ -384,7 +368,9 @@ def stmt_exprs(s):
     if k == "decl":
         return [s["init"]] if s["init"] is not None else []
     if k == "alloc":
-        return [s["size"]]
+        return [s["size"]] + ([s["fill"]] if s.get("fill") is not None else [])
+    if k == "assert":
+        return [s["c"]]
     if k == "assign":
         return [s["lhs"], s["e"]] if s["lhs"][0] == "idx" else [s["e"]]
     if k == "if":
@@ -415,6 +401,8 @@ def touches_ok(stmts):
             if has_access(e):
                 return True
         if s["k"] == "assign" and s["lhs"][0] == "idx":
+            return True
+        if s["k"] == "assert":
             return True
     return False
 
@@ -470,7 +458,13 @@ def live_block(stmts, out, ctx, ann):
                     live.add("ok")
         elif k == "alloc":
             live.discard(s["name"])
+            live.discard(s["name"] + "_len")
             live |= uses(s["size"])
+            if s.get("fill") is not None:
+                live |= uses(s["fill"])
+        elif k == "assert":
+            live |= uses(s["c"])
+            live.add("ok")
         elif k == "assign":
             if s["lhs"][0] == "var":
                 live.discard(s["lhs"][1])
@@ -577,6 +571,10 @@ class Emitter:
                 return "(Fin %s)" % txt, "cost", obl
             if ty == "bool" and want == "Z":
                 return "(if %s then 1 else 0)" % txt, "Z", obl
+            if want == "bool" and ty == "Z":
+                return "(negb (%s =? 0))" % txt, "bool", obl
+            if want == "bool" and ty == "cost":
+                return "(negb (ceqb %s (Fin 0)))" % txt, "bool", obl
             raise TranslateError("%s: expression %r has type %s, %s wanted" % (self.fname, e, ty, want))
         return txt, ty, obl
 
@@ -654,13 +652,27 @@ class Emitter:
         if k == "call":
             f, args = e[1], e[2]
             if f in ("MIN", "MAX"):
-                if len(args) != 2:
+                if len(args) < 2:
                     raise TranslateError("%s arity" % f)
+                if len(args) > 2:
+                    return self.ex0(("call", f, [("call", f, args[:-1]), args[-1]]), want)
                 a, ta, oa = self.ex0(args[0], None)
                 b, tb, ob = self.ex0(args[1], None)
                 if ta == "Z" and tb == "Z":
                     return "(Z.%s %s %s)" % (f.lower(), a, b), "Z", oa + ob
+                if f == "MIN" and self.cost_min_ok:
+                    if ta == "Z":
+                        a = "(Fin %s)" % a
+                    if tb == "Z":
+                        b = "(Fin %s)" % b
+                    return "(cmin %s %s)" % (a, b), "cost", oa + ob
                 raise TranslateError("%s on seq_t values" % f)
+            if f == "abs":
+                a, _, oa = self.ex(args[0], "Z")
+                return "(Z.abs %s)" % a, "Z", oa
+            extra = self.ex_extra(e, want)
+            if extra is not None:
+                return extra
             if f == "SEDIST":
                 a, _, oa = self.ex(args[0], "cost")
                 b, _, ob = self.ex(args[1], "cost")
@@ -691,7 +703,15 @@ class Emitter:
                 raise TranslateError("%s: call of %s permutes the parameters" % (self.fname, f))
             self.used_calls[f] = key
             return "call_" + f, "cost", []
+        extra = self.ex_extra(e, want)
+        if extra is not None:
+            return extra
         raise TranslateError("expression %r" % (e,))
+
+    cost_min_ok = False
+
+    def ex_extra(self, e, want):
+        return None
 
     def okline(self, obl):
         return "".join("let ok := ok && inb %s %s in\n" % (n, i) for n, i in obl)
@@ -721,7 +741,14 @@ class Emitter:
         if kind == "alloc":
             t, _, obl = self.ex(s["size"], "Z")
             n = s["name"]
+            if s.get("fill") is not None:
+                ft, _, _ = self.ex(s["fill"], "cost")
+                return ("let %s_len := %s in\nlet %s := amake (fun _ => %s) %s_len in\n" % (n, t, n, ft, n)) + go(defined | {n, n + "_len"})
             return ("let %s_len := %s in\nlet %s := amake junk_%s %s_len in\n" % (n, t, n, n, n)) + go(defined | {n, n + "_len"})
+        if kind == "assert":
+            self.check_defined(uses(s["c"]), defined, s)
+            ct, _, obl = self.ex(s["c"], "bool")
+            return self.okline(obl) + "let ok := ok && %s in\n" % ct + go(defined)
         if kind == "assign":
             if s["lhs"][0] == "var":
                 v = s["lhs"][1]
@@ -897,21 +924,14 @@ class Emitter:
         return "let %s := fold_left (%s) (zrange %s %s) %s in\n" % (outpat, call.strip(), lo, hi, init) + go((defined | set(carried)) - {v})
 
     def collect_len_vars(self, e, acc):
-        k = e[0]
-        if k == "idx":
+        if e[0] in ("idx", "slice"):
             ty = self.types.get(e[1])
             if ty == "arr":
                 acc.add(e[1] + "_len")
             elif ty == "in":
                 acc |= uses(self.in_bounds[e[1]])
-            self.collect_len_vars(e[2], acc)
-        elif k == "bin":
-            self.collect_len_vars(e[2], acc); self.collect_len_vars(e[3], acc)
-        elif k == "un":
-            self.collect_len_vars(e[2], acc)
-        elif k == "call":
-            for a in e[2]:
-                self.collect_len_vars(a, acc)
+        for x in subexprs(e)[1]:
+            self.collect_len_vars(x, acc)
 
     def function(self):
         defined = {n for ty, n in self.params} | {"ok"}
@@ -919,7 +939,7 @@ class Emitter:
         def end(d):
             raise TranslateError("%s: control reaches the end of the function" % self.fname)
         body = self.block(self.stmts, defined, end, None)
-        allocs = sorted(s["name"] for s in walk(self.stmts) if s["k"] == "alloc")
+        allocs = sorted(s["name"] for s in walk(self.stmts) if s["k"] == "alloc" and s.get("fill") is None)
         params = [("call_" + c, "cost") for c in sorted(self.used_calls)] + \
                  [("junk_" + a, "Z -> cost") for a in allocs] + \
                  [(n, COQTY[ty]) for ty, n in self.params if ty != "settings"] + \
